@@ -193,7 +193,14 @@ def _fuzz_campaign(prop_mod, sub_name, shard, n, seed_val, deadline, open_sigs):
             # same seed - a failure of the harness itself repeats and is reported, a transient one does not
             first = "atheris campaign ended with status %s\n%s" % (r.returncode, (r.stderr or "")[-3000:])
             if attempt == 2:
-                out["error"] = first
+                if "Traceback (most recent call last)" in (r.stderr or ""):
+                    out["error"] = first  # an exception of the harness or of the code under test outside the oracle: reported
+                    return out
+                # twice no Python exception and no result (killed, out of memory, libFuzzer's own limits): this campaign explored nothing;
+                # it is counted as skipped and the run goes on - the generated shards and the other campaigns decide
+                sys.stderr.write("note: %s/%s campaign %d ended abnormally twice without a Python exception (status %s): abandoned, "
+                                 "%d runs counted as skipped\n" % (prop_mod, sub_name, shard, r.returncode, n))
+                out.update(evaluations=0, nontrivial=set(), classes=Counter(), samples=[], known=Counter(), skipped=n)
                 return out
             sys.stderr.write("note: %s/%s campaign %d ended abnormally (status %s), started again\n%s\n" % (
                 prop_mod, sub_name, shard, r.returncode, (r.stderr or "")[-1500:]))
